@@ -856,4 +856,367 @@ Section Oracles.
     rewrite (ci_detect c cwd extra E), (ti_detect_claude $"Bash" c cwd extra eq_refl), (ti_detect_gemini tn_g c cwd extra Hg).
     auto.
   Qed.
+
+  (* ---- C06_allow_only: exactly when does the core answer allow *)
+  Definition legit_allow (cursor : bool) (inp : json) (r : str) : Prop :=
+    exists cwd cfg he rt,
+      find_cwd inp = Ok cwd /\ load_stage cwd = Ok cfg /\ event_of inp = Ok he /\ is_post he = false /\
+      route_of cursor inp = Ok rt /\ o_log_decision $"allow" r = Ok tt /\
+      ( (* the host declared a bypass permission mode, for a shell or an MCP call *)
+        (rt <> ROther /\ bypass_of inp = Ok (Some r) /\ In r BYPASS_MODES)
+        \/ (* analysis of a str command completed with allow *)
+        (bypass_of inp = Ok None /\ exists s, rt = RShell (JStr s) /\ o_analyze s (c_shell cfg) cwd = Ok ($"allow", r))
+        \/ (* the last matching MCP rule says allow *)
+        (bypass_of inp = Ok None /\ exists tn rule, rt = RMcp tn /\ match_mcp o_gmatch tn cfg = Some rule /\
+           r_decision rule = $"allow" /\ r = mcp_reason rule) ).
+
+  Lemma verdict_of_action_allow a : verdict_of_action a = Allow <-> a = $"allow".
+  Proof.
+    unfold verdict_of_action. destruct (str_eqb_spec a $"allow") as [->|N]; [tauto|].
+    destruct (str_eqb a $"deny"); split; intro H; try discriminate; contradiction.
+  Qed.
+
+  Lemma unit_ok (x : res unit) : (exists u, x = Ok u) -> x = Ok tt.
+  Proof. intros ([] & ->). reflexivity. Qed.
+
+  Lemma core_allow_only cursor inp r : core cursor inp = Ok (ODecision Allow r) -> legit_allow cursor inp r.
+  Proof.
+    intro H. apply core_cases in H as [(msg & _ & E) | (cwd & cfg & he & rt & Hc & Hl & He & Hr & H)];
+      [discriminate|].
+    destruct (is_post he) eqn:P.
+    { destruct rt; [apply core_shell_post in H | apply core_mcp_post in H | ]; auto; discriminate. }
+    exists cwd, cfg, he, rt. do 5 (split; [assumption|]).
+    destruct rt as [c|tn|]; [| |discriminate].
+    - unfold Hook.core_shell in H. unfold is_post in P. rewrite P, perm_bypass_spec in H.
+      destruct (bypass_of inp) as [[b|]|e] eqn:B; cbn [bind] in H; [| |discriminate].
+      + destruct (o_log_decision $"allow" b) as [u|e] eqn:Lg; cbn [bind] in H; [|discriminate].
+        injection H as <-. split; [apply unit_ok; eauto|]. left. split; [discriminate|]. split; [reflexivity|].
+        eapply bypass_of_in; eauto.
+      + unfold analyze in H. destruct c; cbn [bind] in H; try discriminate.
+        destruct (o_analyze s (c_shell cfg) cwd) as [[a r']|e] eqn:A; cbn [bind] in H; [|discriminate].
+        destruct (o_log_decision a r') as [u|e] eqn:Lg; cbn [bind] in H; [|discriminate].
+        injection H as Hv <-. apply verdict_of_action_allow in Hv. subst a.
+        split; [apply unit_ok; eauto|]. right; left. split; [reflexivity|]. exists s. auto.
+    - unfold Hook.core_mcp in H. unfold is_post in P. rewrite P, perm_bypass_spec in H.
+      destruct (bypass_of inp) as [[b|]|e] eqn:B; cbn [bind] in H; [| |discriminate].
+      + destruct (o_log_decision $"allow" b) as [u|e] eqn:Lg; cbn [bind] in H; [|discriminate].
+        injection H as <-. split; [apply unit_ok; eauto|]. left. split; [discriminate|]. split; [reflexivity|].
+        eapply bypass_of_in; eauto.
+      + destruct (match_mcp o_gmatch tn cfg) as [rule|] eqn:M; [|discriminate].
+        destruct (o_log_decision (r_decision rule) (mcp_reason rule)) as [u|e] eqn:Lg; cbn [bind] in H; [|discriminate].
+        injection H as Hv <-. apply verdict_of_action_allow in Hv. rewrite Hv in Lg.
+        split; [apply unit_ok; eauto|]. right; right. split; [reflexivity|]. exists tn, rule. auto.
+  Qed.
+
+  Lemma core_allow_if cursor inp r : legit_allow cursor inp r -> core cursor inp = Ok (ODecision Allow r).
+  Proof.
+    intros (cwd & cfg & he & rt & Hc & Hl & He & P & Hr & Lg & H).
+    unfold Hook.core. rewrite Hc; cbn [bind]. rewrite Hl, core_after_config_route, He; cbn [bind]. rewrite Hr; cbn [bind].
+    unfold is_post in P.
+    destruct H as [(N & B & _) | [(B & s & -> & A) | (B & tn & rule & -> & M & D & ->)]].
+    - destruct rt as [c|tn|]; [| |contradiction].
+      + unfold Hook.core_shell. rewrite P, perm_bypass_spec, B; cbn [bind]. rewrite Lg. reflexivity.
+      + unfold Hook.core_mcp. rewrite P, perm_bypass_spec, B; cbn [bind]. rewrite Lg. reflexivity.
+    - unfold Hook.core_shell. rewrite P, perm_bypass_spec, B; cbn [bind analyze]. rewrite A; cbn [bind]. rewrite Lg. reflexivity.
+    - unfold Hook.core_mcp. rewrite P, perm_bypass_spec, B; cbn [bind]. rewrite M, D, Lg. reflexivity.
+  Qed.
+
+  (* on the process: an allow envelope on stdout has a legitimate origin *)
+  Lemma main_allow_only setup e inp m r :
+    stdout (main setup e (Ok inp)) = [J (envelope m Allow r)] ->
+    exists m', mode_of e inp = Ok m' /\ legit_allow (is_cursor m') inp r.
+  Proof.
+    unfold Hook.main, mode_of. cbn [bind].
+    assert (K : forall res0, stdout (handlers res0) = [J (envelope m Allow r)] ->
+                 res0 = main_try (detect_mode_from_flags e) inp ->
+                 exists m', (match detect_mode_from_flags e with Some m0 => Ok m0 | None => detect_mode_from_input inp end) = Ok m'
+                            /\ legit_allow (is_cursor m') inp r).
+    { intros res0 H ->. rewrite main_try_factor in H.
+      destruct (match detect_mode_from_flags e with Some m0 => Ok m0 | None => detect_mode_from_input inp end) as [m'|x];
+        cbn [bind] in H.
+      - exists m'. split; [reflexivity|]. unfold lift in H.
+        destruct (core (is_cursor m') inp) as [o|x] eqn:Ec; cbn [bind handlers] in H.
+        + apply core_allow_only. rewrite Ec. f_equal.
+          destruct o; cbn [render done stdout] in H; try discriminate; injection H as H.
+          * assert (m' = m) as ->.
+            { destruct m', m; try reflexivity; discriminate. }
+            apply envelope_injective in H as [-> ->]. reflexivity.
+          * symmetry in H. apply envelope_not_empty in H. contradiction.
+        + destruct (is_exception x); cbn [done crash stdout] in H; [|discriminate].
+          injection H as H. symmetry in H. apply envelope_not_empty in H. contradiction.
+      - cbn [handlers] in H. destruct (is_exception x); cbn [done crash stdout] in H; [|discriminate].
+        injection H as H. symmetry in H. apply envelope_not_empty in H. contradiction. }
+    destruct setup as [u|x].
+    - intro H. eapply K; eauto.
+    - destruct (is_oserror x); [intro H; eapply K; eauto | discriminate].
+  Qed.
+
+  (* ---- C06_failures: the closed form of a well-formed shell request: the first thing that raises decides *)
+  Lemma wf_shell_run_spec m tn s cwds extra :
+    In tn SHELL_TOOL_NAMES -> cwds <> [] ->
+    is_post (field $"hook_event_name" extra (JStr $"PreToolUse")) = false ->
+    py_in_tuple (field $"permission_mode" extra (JStr $"default")) BYPASS_MODES = false ->
+    is_cursor m = false ->
+    main_try (Some m) (tool_input_shape tn (JStr s) (JStr cwds) extra) = wf_shell_run m s cwds.
+  Proof.
+    intros H Hn P B Hm. rewrite main_try_factor. cbn [bind]. rewrite Hm. unfold lift, Hook.core, wf_shell_run.
+    destruct cwds as [|c0 t0]; [contradiction|].
+    unfold Hook.find_cwd. rewrite ti_cwd. cbn [bind truthy nonempty negb path_resolve].
+    destruct (o_resolve (c0 :: t0)) as [cwd|x]; cbn [bind]; [|reflexivity].
+    destruct (load_stage cwd) as [cfg|x]; [|destruct x; reflexivity].
+    rewrite core_after_config_route. unfold event_of. rewrite ti_event, (ti_route tn _ _ extra H). cbn [bind].
+    unfold Hook.core_shell. unfold is_post in P. rewrite P, perm_bypass_spec. unfold bypass_of. rewrite ti_perm. cbn [bind].
+    rewrite B. cbn [bind analyze].
+    destruct (o_analyze s (c_shell cfg) cwd) as [[a r]|x]; cbn [bind fst snd]; [|reflexivity].
+    destruct (o_log_decision a r); reflexivity.
+  Qed.
+
+  (* a top-level JSON value that is not an object never gets past the first .get *)
+  Lemma main_try_nonobject explicit inp :
+    (forall kv, inp <> JObj kv) -> exists x, main_try explicit inp = Raise x /\ is_exception x = true.
+  Proof.
+    intro N. unfold Hook.main_try.
+    pose proof (detect_exc inp) as D.
+    destruct (match explicit with Some m => Ok m | None => detect_mode_from_input inp end) as [m|x] eqn:E; cbn [bind].
+    - unfold Hook.find_cwd. rewrite (py_get_nonobj inp _ _ N). cbn [bind]. eauto.
+    - destruct explicit; [discriminate|]. rewrite E in D. eauto.
+  Qed.
+
+  (* ---- C19: PostToolUse *)
+  Lemma core_post_outcome cursor inp o :
+    post_event inp -> core cursor inp = Ok o ->
+    (exists msg, config_error_at inp msg /\ o = ODecision Ask ($"config error: " ++ msg)) \/
+    (route_of cursor inp = Ok ROther /\ o = OEmpty) \/
+    is_feedback o = true.
+  Proof.
+    intros (he' & Ee' & P) H.
+    apply core_cases in H as [(msg & Hm & ->) | (cwd & cfg & he & rt & _ & _ & Ee & Hr & H)]; [left; eauto|].
+    right. rewrite Ee' in Ee. injection Ee as <-. destruct rt.
+    - right. eapply core_shell_post; eauto.
+    - right. eapply core_mcp_post; eauto.
+    - left. auto.
+  Qed.
+
+  Lemma feedback_render m o : is_feedback o = true ->
+    render m o = [] \/ exists t, render m o = [Text t] /\ o = OText t.
+  Proof. destruct o; try discriminate; intros _; [right; eexists; split; reflexivity | left; reflexivity]. Qed.
+
+  (* the printed line is the duck, then a non-empty message *)
+  Lemma text_outcome_duck msg t : text_outcome msg = Ok (OText t) -> exists c r, msg = Some (c :: r) /\ t = duck ++ c :: r.
+  Proof.
+    intro H. apply text_outcome_shape in H as [H | (c & r & -> & H)]; [discriminate|]. injection H as ->. eauto.
+  Qed.
+
+  (* "last match wins" for the three rule loops *)
+  Lemma find_snoc {A} (p : A -> bool) l x :
+    find p (l ++ [x]) = match find p l with Some y => Some y | None => if p x then Some x else None end.
+  Proof. induction l as [|a l IH]; cbn [app find]; [reflexivity|]. destruct (p a); [reflexivity | exact IH]. Qed.
+
+  Definition last_such {A} (p : A -> bool) (l : list A) : option A := find p (rev l).
+
+  Lemma last_such_cons {A} (p : A -> bool) a l :
+    last_such p (a :: l) = match last_such p l with Some y => Some y | None => if p a then Some a else None end.
+  Proof. unfold last_such. cbn [rev]. apply find_snoc. Qed.
+
+  Definition mcp_hit (tn : str) (r : rule) : bool := o_gmatch tn (r_pattern r).
+
+  Lemma match_mcp_loop_spec tn rules acc :
+    match_mcp_loop o_gmatch tn rules acc = match last_such (mcp_hit tn) rules with Some r => Some r | None => acc end.
+  Proof.
+    revert acc. induction rules as [|r rs IH]; intro acc; cbn [match_mcp_loop]; [reflexivity|].
+    rewrite IH, last_such_cons. destruct (last_such (mcp_hit tn) rs); [reflexivity|].
+    unfold mcp_hit. destruct (o_gmatch tn (r_pattern r)); reflexivity.
+  Qed.
+  Lemma match_mcp_last tn (cfg : config) : match_mcp o_gmatch tn cfg = last_such (mcp_hit tn) (c_mcp cfg).
+  Proof. unfold match_mcp. rewrite match_mcp_loop_spec. destruct (last_such (mcp_hit tn) (c_mcp cfg)); reflexivity. Qed.
+
+  Lemma after_mcp_loop_spec tn rules acc :
+    after_mcp_loop o_gmatch tn rules acc =
+      match last_such (mcp_hit tn) rules with Some r => Some (msg_or_empty r) | None => acc end.
+  Proof.
+    revert acc. induction rules as [|r rs IH]; intro acc; cbn [after_mcp_loop]; [reflexivity|].
+    rewrite IH, last_such_cons. destruct (last_such (mcp_hit tn) rs); [reflexivity|].
+    unfold mcp_hit. destruct (o_gmatch tn (r_pattern r)); reflexivity.
+  Qed.
+  Lemma match_after_mcp_last tn (cfg : config) :
+    match_after_mcp o_gmatch tn cfg = option_map msg_or_empty (last_such (mcp_hit tn) (c_after_mcp cfg)).
+  Proof.
+    unfold match_after_mcp. rewrite after_mcp_loop_spec. destruct (last_such (mcp_hit tn) (c_after_mcp cfg)); reflexivity.
+  Qed.
+
+  Lemma after_loop_spec sh cwd ws (p : rule -> bool) rules acc :
+    Forall (fun r => o_after_rule sh cwd ws r = Ok (p r)) rules ->
+    after_loop o_after_rule sh cwd ws rules acc =
+      Ok (match last_such p rules with Some r => Some (msg_or_empty r) | None => acc end).
+  Proof.
+    intro F. revert acc. induction F as [|r rs Hr _ IH]; intro acc; cbn [after_loop]; [reflexivity|].
+    rewrite Hr; cbn [bind]. rewrite IH, last_such_cons. destruct (last_such p rs); [reflexivity|].
+    destruct (p r); reflexivity.
+  Qed.
+
+  (* if some rule's matcher raises, so does the loop (and the hook prints {}) *)
+  Lemma after_loop_raise sh cwd ws rules acc :
+    Exists (fun r => exists x, o_after_rule sh cwd ws r = Raise x) rules ->
+    (forall r, In r rules -> exc_only (o_after_rule sh cwd ws r)) ->
+    exists x, after_loop o_after_rule sh cwd ws rules acc = Raise x /\ is_exception x = true.
+  Proof.
+    intros E X. revert acc. induction rules as [|r rs IH]; intro acc; [inversion E|].
+    cbn [after_loop]. pose proof (X r (or_introl eq_refl)) as Xr.
+    destruct (o_after_rule sh cwd ws r) as [b|x] eqn:Er; cbn [bind].
+    - apply IH.
+      + inversion E as [? ? (x & Hx)|]; subst; [rewrite Er in Hx; discriminate | assumption].
+      + intros r' Hr'. apply X. right; exact Hr'.
+    - eauto.
+  Qed.
+
+  (* what is printed for an MCP tool on PostToolUse *)
+  Definition feedback_of (msg : option str) : list item :=
+    match msg with Some (c :: t) => [Text (duck ++ c :: t)] | _ => [] end.
+
+  Lemma text_outcome_feedback m msg :
+    (forall s, exists u, o_print s = Ok u) -> lift m (text_outcome msg) = Ok (feedback_of msg).
+  Proof.
+    intro Pr. unfold lift, Hook.text_outcome, feedback_of. destruct msg as [[|c t]|]; try reflexivity.
+    destruct (Pr (duck ++ c :: t)) as (u & ->). reflexivity.
+  Qed.
 End Oracles.
+
+(* ------------------------------------------------------------------ non-interference (C19_inert, C14_routing) *)
+Section Two.
+  Variables S G : Type.
+  Notation config := (config S G).
+  Variable o_resolve : str -> res str.
+  Variable o_getcwd : res str.
+  Variable o_configure_logging : G -> res unit.
+  Variable o_log_decision : str -> str -> res unit.
+  Variable o_print : str -> res unit.
+  (* two worlds *)
+  Variables lc lc' : str -> res config.
+  Variables an an' : str -> S -> str -> res (str * str).
+  Variables gm gm' : str -> str -> bool.
+  Variables wd wd' : str -> list str.
+  Variables pr pr' : S -> str -> list str -> res unit.
+  Variables ar ar' : S -> str -> list str -> rule -> res bool.
+
+  Notation core1 := (@core S G o_resolve o_getcwd lc o_configure_logging o_log_decision an gm wd pr ar o_print).
+  Notation core2 := (@core S G o_resolve o_getcwd lc' o_configure_logging o_log_decision an' gm' wd' pr' ar' o_print).
+  Notation main1 := (@main_try S G o_resolve o_getcwd lc o_configure_logging o_log_decision an gm wd pr ar o_print).
+  Notation main2 := (@main_try S G o_resolve o_getcwd lc' o_configure_logging o_log_decision an' gm' wd' pr' ar' o_print).
+
+  (* two load_config oracles related by R on what they return *)
+  Definition rel_load (R : config -> config -> Prop) : Prop :=
+    forall cwd, match lc cwd, lc' cwd with
+                | Ok a, Ok b => R a b
+                | Raise x, Raise y => x = y
+                | _, _ => False
+                end.
+
+  Lemma load_stage_rel (R : config -> config -> Prop) cwd :
+    rel_load R -> (forall a b, R a b -> c_log a = c_log b) ->
+    (exists x, load_stage lc o_configure_logging cwd = Raise x /\ load_stage lc' o_configure_logging cwd = Raise x) \/
+    (exists a b, load_stage lc o_configure_logging cwd = Ok a /\ load_stage lc' o_configure_logging cwd = Ok b /\ R a b).
+  Proof.
+    intros H L. specialize (H cwd). unfold load_stage.
+    destruct (lc cwd) as [a|x], (lc' cwd) as [b|y]; try contradiction; cbn [bind].
+    - rewrite <- (L a b H). destruct (o_configure_logging (c_log a)); cbn [bind]; [right; eauto | left; eauto].
+    - subst. left; eauto.
+  Qed.
+
+  Lemma core_rel (R : config -> config -> Prop) cursor inp :
+    rel_load R -> (forall a b, R a b -> c_log a = c_log b) ->
+    (forall a b cwd, R a b ->
+       core_after_config o_log_decision an gm wd pr ar o_print cursor inp a cwd =
+       core_after_config o_log_decision an' gm' wd' pr' ar' o_print cursor inp b cwd) ->
+    core1 cursor inp = core2 cursor inp.
+  Proof.
+    intros H L K. unfold core. destruct (find_cwd o_resolve o_getcwd inp) as [cwd|x]; cbn [bind]; [|reflexivity].
+    destruct (load_stage_rel R cwd H L) as [(x & -> & ->) | (a & b & -> & -> & Hab)]; [reflexivity|].
+    apply K. exact Hab.
+  Qed.
+
+  Lemma main_rel explicit inp :
+    (forall cursor, core1 cursor inp = core2 cursor inp) -> main1 explicit inp = main2 explicit inp.
+  Proof.
+    intro H. rewrite !main_try_factor.
+    destruct (match explicit with Some m => Ok m | None => detect_mode_from_input inp end); cbn [bind]; [|reflexivity].
+    unfold lift. rewrite H. reflexivity.
+  Qed.
+
+End Two.
+Arguments rel_load {S G}.
+
+Section Three.
+  Variables S G : Type.
+  Notation config := (config S G).
+  Variable o_resolve : str -> res str.
+  Variable o_getcwd : res str.
+  Variable o_configure_logging : G -> res unit.
+  Variable o_log_decision : str -> str -> res unit.
+  Variable o_print : str -> res unit.
+  Variables lc lc' : str -> res config.
+  Variables an an' : str -> S -> str -> res (str * str).
+  Variables gm gm' : str -> str -> bool.
+  Variables wd wd' : str -> list str.
+  Variables pr pr' : S -> str -> list str -> res unit.
+  Variables ar ar' : S -> str -> list str -> rule -> res bool.
+  Notation corex := (@core S G o_resolve o_getcwd).
+  Notation cac := (@core_after_config S G o_log_decision).
+
+  (* C19_inert: configs that differ only in after / after-mcp rules; everything else the same world *)
+  Definition same_but_after (a b : config) : Prop :=
+    c_shell a = c_shell b /\ c_mcp a = c_mcp b /\ c_log a = c_log b.
+
+  Lemma core_inert cursor inp :
+    rel_load lc lc' same_but_after -> pre_event inp ->
+    corex lc o_configure_logging o_log_decision an gm wd pr ar o_print cursor inp =
+    corex lc' o_configure_logging o_log_decision an gm wd pr ar o_print cursor inp.
+  Proof.
+    intros H P. apply core_rel with (R := same_but_after); [exact H | intros a b (_ & _ & E); exact E |].
+    intros a b cwd (Es & Em & _). rewrite !core_after_config_route.
+    destruct (event_of inp) as [he|x] eqn:Ee; cbn [bind]; [|reflexivity].
+    specialize (P he Ee). unfold is_post in P.
+    destruct (route_of cursor inp) as [[c|tn|]|x]; cbn [bind]; try reflexivity.
+    - unfold core_shell. rewrite P, Es. reflexivity.
+    - unfold core_mcp, match_mcp. rewrite P, Em. reflexivity.
+  Qed.
+
+  (* C14_routing, MCP side: only the *-mcp rules, the log setting and fnmatch are consulted *)
+  Definition same_mcp_part (a b : config) : Prop :=
+    c_mcp a = c_mcp b /\ c_after_mcp a = c_after_mcp b /\ c_log a = c_log b.
+
+  Lemma core_mcp_route_only inp tn :
+    rel_load lc lc' same_mcp_part -> route_of false inp = Ok (RMcp tn) ->
+    corex lc o_configure_logging o_log_decision an gm wd pr ar o_print false inp =
+    corex lc' o_configure_logging o_log_decision an' gm wd' pr' ar' o_print false inp.
+  Proof.
+    intros H Hr. apply core_rel with (R := same_mcp_part); [exact H | intros a b (_ & _ & E); exact E |].
+    intros a b cwd (Em & Ea & _). rewrite !core_after_config_route, Hr.
+    destruct (event_of inp) as [he|x]; cbn [bind]; [|reflexivity].
+    unfold core_mcp, match_mcp, match_after_mcp. rewrite Em, Ea. reflexivity.
+  Qed.
+
+  (* C14_routing, shell side: the *-mcp rules and their matcher are never consulted *)
+  Definition same_shell_part (a b : config) : Prop :=
+    c_shell a = c_shell b /\ c_after a = c_after b /\ c_log a = c_log b.
+
+  Lemma core_shell_route_only cursor inp c :
+    rel_load lc lc' same_shell_part -> route_of cursor inp = Ok (RShell c) ->
+    corex lc o_configure_logging o_log_decision an gm wd pr ar o_print cursor inp =
+    corex lc' o_configure_logging o_log_decision an gm' wd pr ar o_print cursor inp.
+  Proof.
+    intros H Hr. apply core_rel with (R := same_shell_part); [exact H | intros a b (_ & _ & E); exact E |].
+    intros a b cwd (Es & Ea & _). rewrite !core_after_config_route, Hr.
+    destruct (event_of inp) as [he|x]; cbn [bind]; [|reflexivity].
+    unfold core_shell, match_after. rewrite Es, Ea. reflexivity.
+  Qed.
+
+  (* anything else (Read, Edit, ...) : {} whatever the rules say, provided the config loads *)
+  Lemma core_other_route_only inp :
+    rel_load lc lc' (fun a b => c_log a = c_log b) -> route_of false inp = Ok ROther ->
+    corex lc o_configure_logging o_log_decision an gm wd pr ar o_print false inp =
+    corex lc' o_configure_logging o_log_decision an' gm' wd' pr' ar' o_print false inp.
+  Proof.
+    intros H Hr. apply core_rel with (R := fun a b : config => c_log a = c_log b); [exact H | auto |].
+    intros a b cwd _. rewrite !core_after_config_route, Hr. reflexivity.
+  Qed.
+End Three.
